@@ -338,6 +338,19 @@ impl<'a> Run<'a> {
         if self.cancelled_once.contains(&o.id) {
             bump(&mut self.out.probes, "readd_of_cancelled_id");
         }
+        // reach of the scale / corner-value modes of the generator
+        match before.len() {
+            16 => bump(&mut self.out.probes, "book_grew_past_16_orders"),
+            64 => bump(&mut self.out.probes, "book_grew_past_64_orders"),
+            256 => bump(&mut self.out.probes, "book_grew_past_256_orders"),
+            _ => {}
+        }
+        if o.id.v == 0 || o.id.v == u128::MAX {
+            bump(&mut self.out.probes, "nil_or_all_ones_id_added");
+        }
+        if before.keys().any(|k| k.v == o.id.v && k.ulid != o.id.ulid) {
+            bump(&mut self.out.probes, "uuid_and_ulid_with_same_bits_resting");
+        }
         let lib = o.to_lib();
         self.tickets_issued += 1;
         self.hooks.begin_op(64 * 16);
@@ -392,6 +405,12 @@ impl<'a> Run<'a> {
         // every visit may hand an order back (a new ticket)
         self.tickets_issued += max_visits(&before_list).min(1 << 20) + n + 2;
         self.hooks.begin_op(budget);
+        if before.contains_key(&taker) {
+            bump(&mut self.out.probes, "taker_id_is_a_resting_maker");
+        }
+        if self.lp == 0 {
+            bump(&mut self.out.probes, "match_at_price_zero");
+        }
         let taker_lib = taker.to_lib();
         let r = guarded(|| self.level.match_order(qty, taker_lib, &self.generator));
         let used = self.hooks.end_op();
@@ -1523,6 +1542,12 @@ impl<'a> Exec<'a> {
     /// Apply operation `i`; false when the run had to be cut short.
     pub fn apply(&mut self, i: usize, op: &Op) -> bool {
         let run = &mut self.run;
+        match i {
+            100 => bump(&mut run.out.probes, "history_past_100_ops"),
+            1000 => bump(&mut run.out.probes, "history_past_1000_ops"),
+            100_000 => bump(&mut run.out.probes, "history_past_100000_ops"),
+            _ => {}
+        }
         match op {
             Op::Add(o) => run.op_add(i, o),
             Op::Match { qty, taker } => run.op_match(i, *qty, *taker),
